@@ -10,6 +10,7 @@ import (
 	"sort"
 	"strings"
 	"sync"
+	"sync/atomic"
 	"time"
 )
 
@@ -34,22 +35,23 @@ type Op struct {
 
 // Obs is what the worker observed for one Op.
 type Obs struct {
-	ID     int               `json:"id"`
-	Panic  string            `json:"panic,omitempty"` // recovered Go panic (message + innermost library frame)
-	Site   string            `json:"site,omitempty"`  // innermost library function on the panic stack
-	Hang   bool              `json:"hang,omitempty"`  // worker had to be killed (no progress)
-	Crash  string            `json:"crash,omitempty"` // worker died (fatal error), tail of stderr
-	Err    string            `json:"err,omitempty"`   // error text, "" = nil
-	ErrIs  []string          `json:"errIs,omitempty"` // sentinel errors matched by errors.Is
-	R      json.RawMessage   `json:"r,omitempty"`     // op-specific result
-	Std    int               `json:"std,omitempty"`   // bytes written to fd 1/2 during the op
-	Req    int64             `json:"req,omitempty"`   // bytes requested from the underlying reader
-	Reads  int               `json:"reads,omitempty"` // number of Read calls
-	Alloc  uint64            `json:"alloc,omitempty"` // TotalAlloc delta
-	Events []json.RawMessage `json:"ev,omitempty"`    // hook events
-	NS     int64             `json:"ns,omitempty"`
-	Stall  string            `json:"stall,omitempty"`  // deterministic non-progress detected by hooks
-	Script []int             `json:"script,omitempty"` // sizes of the Read requests issued to the underlying reader
+	ID      int               `json:"id"`
+	Panic   string            `json:"panic,omitempty"`   // recovered Go panic (message + innermost library frame)
+	Site    string            `json:"site,omitempty"`    // innermost library function on the panic stack
+	Hang    bool              `json:"hang,omitempty"`    // worker had to be killed (no progress)
+	Skipped bool              `json:"skipped,omitempty"` // not executed (the run had already met hangBudget hangs)
+	Crash   string            `json:"crash,omitempty"`   // worker died (fatal error), tail of stderr
+	Err     string            `json:"err,omitempty"`     // error text, "" = nil
+	ErrIs   []string          `json:"errIs,omitempty"`   // sentinel errors matched by errors.Is
+	R       json.RawMessage   `json:"r,omitempty"`       // op-specific result
+	Std     int               `json:"std,omitempty"`     // bytes written to fd 1/2 during the op
+	Req     int64             `json:"req,omitempty"`     // bytes requested from the underlying reader
+	Reads   int               `json:"reads,omitempty"`   // number of Read calls
+	Alloc   uint64            `json:"alloc,omitempty"`   // TotalAlloc delta
+	Events  []json.RawMessage `json:"ev,omitempty"`      // hook events
+	NS      int64             `json:"ns,omitempty"`
+	Stall   string            `json:"stall,omitempty"`  // deterministic non-progress detected by hooks
+	Script  []int             `json:"script,omitempty"` // sizes of the Read requests issued to the underlying reader
 }
 
 // Bad reports whether the op did not return normally.
@@ -161,11 +163,23 @@ func RunOps(ops []Op, wo WorkerOpts) ([]Obs, error) {
 	return all, firstErr
 }
 
+var confirmedHangs, hangsSeen int32
+
+const hangBudget = 40
+
 func runShard(ops []Op, wo WorkerOpts) ([]Obs, error) {
 	var out []Obs
 	rest := ops
 	restarts := 0
 	for len(rest) > 0 {
+		if atomic.LoadInt32(&hangsSeen) >= hangBudget {
+			// many calls have already been found not to return (each costs a full stall period): the verdict is
+			// settled, the remaining calls of this run are not executed
+			for _, op := range rest {
+				out = append(out, Obs{ID: op.ID, Skipped: true, Err: "not executed: the run had already met many calls that do not return"})
+			}
+			break
+		}
 		got, died, hang, crashTail, err := runWorkerOnce(rest, wo)
 		if err != nil {
 			return out, err
@@ -183,12 +197,19 @@ func runShard(ops []Op, wo WorkerOpts) ([]Obs, error) {
 		if hang {
 			// a verdict of non-termination must not depend on how busy the machine is: the call is repeated
 			// alone in a fresh worker with four times the patience; only if it stalls again it is a hang
+			// (once three hangs have been confirmed in this run the machine is not the cause: no more repeats)
 			wo2 := wo
 			wo2.Stall = 4 * wo.Stall
-			if got2, died2, _, _, err2 := runWorkerOnce([]Op{culprit}, wo2); err2 == nil && !died2 && len(got2) == 1 {
+			if atomic.LoadInt32(&confirmedHangs) >= 3 {
+				ob.Hang = true
+			} else if got2, died2, _, _, err2 := runWorkerOnce([]Op{culprit}, wo2); err2 == nil && !died2 && len(got2) == 1 {
 				ob = got2[0]
 			} else {
+				atomic.AddInt32(&confirmedHangs, 1)
 				ob.Hang = true
+			}
+			if ob.Hang {
+				atomic.AddInt32(&hangsSeen, 1)
 			}
 		} else {
 			ob.Crash = crashTail
